@@ -196,6 +196,11 @@ def join_type(a, b, node=None):
     return unify(a, b, node)
 
 
+def erased(t):
+    """values of this type have no Gallina counterpart"""
+    return t == ER or (isinstance(t, tuple) and ((t[0] == "list" and erased(t[1])) or (t[0] == "dict" and erased(t[2]))))
+
+
 def coerce(c, frm, to, node=None):
     if isinstance(to, tuple) and to[0] == "opt" and not (isinstance(frm, tuple) and frm[0] == "opt"):
         unify(to[1], frm, node)
@@ -292,6 +297,13 @@ class Fn:
         if text in self.aliases:
             var, ty = self.aliases[text]
             return (mangle(var), self.env.get(var, ty))
+        return None
+
+    def alias_var(self, node):
+        """the variable an aliased expression (e.g. fsm_data['encoding']) stands for"""
+        text = ast.unparse(node)
+        if text in self.aliases and text not in self.erased_exprs:
+            return self.aliases[text][0]
         return None
 
     def ex(self, node, binds):
@@ -613,14 +625,7 @@ class Fn:
                 out.append(v)
 
         def base_var(node):
-            al = self.alias(node)
-            if al is not None and al[1] != ER:
-                for text, (var, _) in self.aliases.items():
-                    if text == ast.unparse(node):
-                        return var
-            if isinstance(node, ast.Name):
-                return node.id
-            return None
+            return self.alias_var(node) or (node.id if isinstance(node, ast.Name) else None)
         for s in stmts:
             if isinstance(s, ast.Assign):
                 for tg in s.targets:
@@ -705,13 +710,7 @@ class Fn:
 
     def set_var(self, var, ty, node):
         if var in self.env and self.env[var] is not None:
-            old = self.env[var]
-            # a variable may be refined (list of unknown -> list of T) or rebound to a value of the same type
-            try:
-                ty = unify(old, ty, node)
-            except Unsupported:
-                if not (isinstance(old, tuple) and old[0] == "opt") and not (isinstance(ty, tuple) and ty[0] == "opt"):
-                    raise
+            ty = unify(self.env[var], ty, node)      # a variable keeps its type (a list of unknown may be refined)
         self.env[var] = ty
 
     def assign(self, s, rest, k):
@@ -748,8 +747,8 @@ class Fn:
         if isinstance(tg, ast.Name):
             binds = []
             c, t = self.ex(s.value, binds)
-            if t == ER:
-                self.env[tg.id] = ER
+            if erased(t):
+                self.env[tg.id] = t
                 return self.blk(rest, k)
             self.set_var(tg.id, t, s)
             return self.let(tg.id, c, binds, self.blk(rest, k))
@@ -768,27 +767,24 @@ class Fn:
                     fail(s, "partial value in a tuple assignment")
                 vals.append((c, t))
             for nm, (c, t) in zip(names, vals):
-                if t == ER:
-                    self.env[nm] = ER
+                if erased(t):
+                    self.env[nm] = t
                 else:
                     self.set_var(nm, t, s)
             body = self.blk(rest, k)
             for nm, (c, t) in reversed(list(zip(names, vals))):
-                if t != ER:
+                if not erased(t):
                     body = f"let {mangle(nm)} := {c} in\n  {body}"
             return body
         if isinstance(tg, ast.Subscript):
             # d[k] = v on a dict variable
-            al = self.alias(tg.value)
-            if al is not None and al[1] != ER:
-                var = [v for text, (v, _) in self.aliases.items() if text == ast.unparse(tg.value)][0]
-            elif isinstance(tg.value, ast.Name) and tg.value.id in self.env:
-                var = tg.value.id
-            else:
-                fail(s, "subscript assignment target")
+            var = self.alias_var(tg.value)
+            if var is None:
+                if isinstance(tg.value, ast.Name) and tg.value.id in self.env:
+                    var = tg.value.id
+                else:
+                    fail(s, "subscript assignment target")
             td = self.env.get(var)
-            if td is None and al is not None:
-                td = al[1]
             if not (isinstance(td, tuple) and td[0] == "dict"):
                 fail(s, "subscript assignment to a non-dict")
             binds = []
@@ -903,6 +899,10 @@ class Fn:
         run(first, True, probe)
         run(second, False, probe)
         jt = {}
+        dropped = [v for v in jv if ER in (ends[0].get(v), ends[1].get(v))]
+        jv = [v for v in jv if v not in dropped]
+        if not jv:
+            fail(s, "if statement without effect")
         for v in jv:
             ta, tb = ends[0].get(v, "?"), ends[1].get(v, "?")
             if ta == "?" or tb == "?":
@@ -920,6 +920,8 @@ class Fn:
         self.env = dict(env0)
         for v in jv:
             self.env[v] = jt[v]
+        for v in dropped:
+            self.env[v] = ER
         if fresh_used:
             self.env["__fresh_used"] = True
         pat = tup_term([(mangle(v), jt[v]) for v in jv])
@@ -939,7 +941,7 @@ class Fn:
             if nm in self.env:
                 fail(s, f"loop target {nm} rebinds a live variable")
         env0 = dict(self.env)
-        accs = [v for v in self.env if v in self.assigned(list(s.body)) and not v.startswith("__")]
+        accs = [v for v in self.env if v in self.assigned(list(s.body)) and not v.startswith("__") and self.env[v] != ER]
         if not accs:
             fail(s, "loop without effect on a live variable")
         # first pass: the types of the accumulators at the end of the body (an empty list gets its element type there)
@@ -1008,11 +1010,21 @@ def check_parallel_appends(tree):
         if found != expect or text.count("['bodies']") != found or text.count("['src_locs']") != found:
             raise Unsupported(f"Module.{meth}: unexpected use of the bodies / src_locs lists")
     f = find_function(tree, "Module.State")
+    found = 0
+    for node in ast.walk(f):
+        for field in ("body", "orelse", "finalbody"):
+            stmts = getattr(node, field, None)
+            if not isinstance(stmts, list):
+                continue
+            for i, s in enumerate(stmts):
+                if isinstance(s, ast.stmt) and ast.unparse(s) == "fsm_data['states'][name] = self._statements":
+                    nxt = stmts[i + 1] if i + 1 < len(stmts) else None
+                    if nxt is None or ast.unparse(nxt) != "fsm_data['state_src_locs'][name] = src_loc":
+                        raise Unsupported("Module.State: states and state_src_locs are not set together")
+                    found += 1
     text = ast.unparse(f)
-    if "fsm_data['states'][name] = self._statements\n" not in text or \
-            "fsm_data['states'][name] = self._statements\n            fsm_data['state_src_locs'][name] = src_loc" not in text \
-            or text.count("['state_src_locs']") != 1 or text.count("fsm_data['states'][name] =") != 1:
-        raise Unsupported("Module.State: states and state_src_locs are not set together")
+    if found != 1 or text.count("['state_src_locs']") != 1 or text.count("fsm_data['states'][name] =") != 1:
+        raise Unsupported("Module.State: unexpected use of the states / state_src_locs dicts")
 
 
 IF_IDIOM = "for if_case in if_bodies:\n    for domain in if_case:\n        domains[domain] = None"
@@ -1029,7 +1041,7 @@ FSM_DATA = {"name": ("d_name", ER), "init": ("d_init", ("opt", "nat")), "encodin
 
 
 def definition(name, params, result, term):
-    ps = " ".join(f"({p} : {coq_type(t)})" for p, t in params if t != ER)
+    ps = " ".join(f"({p} : {coq_type(t)})" for p, t in params if not erased(t))
     return f"Definition {name} {ps} : {result} :=\n  {term}.\n\n"
 
 
